@@ -311,10 +311,132 @@ def callee_name(term):
     return (norm_name(f["fn"]), f)
 
 
+_CLOSURE_NO = re.compile(r"\{closure#(\d+)\}$")
+
+
+def closure_signatures(bodies_json, depth):
+    """{parent raw name: [(closure raw name, signature)]} for parents at closure-nesting `depth`
+    (0 = ordinary functions), each list in closure-number order.  The signature says how the
+    closure is used: the callee it is passed to, the argument position, its own parameter count."""
+    byname = {b["name"]: b for b in bodies_json}
+    out = {}
+    for b in bodies_json:
+        if b["name"].count("{closure#") != depth or "::promoted[" in b["name"]:
+            continue
+        for blk in b["blocks"]:
+            for st in blk["stmts"]:
+                if st["s"] == "assign" and st["rv"]["r"] == "agg" and st["rv"].get("ak") == "closure":
+                    cname = st["rv"]["closure"]
+                    L = st["lhs"]["l"]
+                    sig = ("?", -1)
+                    for blk2 in b["blocks"]:
+                        t = blk2["term"]
+                        if t["t"] == "call":
+                            for ai, a_ in enumerate(t["args"]):
+                                if a_.get("k") in ("move", "copy") and a_.get("l") == L and not a_.get("p"):
+                                    sig = (re.sub(r"<.*", "", t["func"].get("fn", "?")).split("::")[-1] if "fn" in t["func"] else "?", ai)
+                                    full = t["func"].get("fn", "?")
+                                    sig = (re.sub(r"^.*::(\w+::\w+)$", r"\1", re.sub(r"<[^<>]*>", "", full)), ai)
+                    cb = byname.get(cname)
+                    ent = (cname, [sig[0], sig[1], cb["arg_count"] if cb else -1])
+                    lst = out.setdefault(b["name"], [])
+                    if all(e[0] != cname for e in lst):
+                        lst.append(ent)
+    for k in out:
+        out[k].sort(key=lambda e: int(_CLOSURE_NO.search(e[0]).group(1)) if _CLOSURE_NO.search(e[0]) else 0)
+    return out
+
+
+def _embeddings(ref, cur, limit=2):
+    """Order-preserving embeddings of sequence ref into cur (as index lists), at most `limit`."""
+    res = []
+
+    def go(i, j, acc):
+        if len(res) >= limit:
+            return
+        if i == len(ref):
+            res.append(list(acc))
+            return
+        for k in range(j, len(cur) - (len(ref) - i) + 1):
+            if cur[k] == ref[i]:
+                acc.append(k)
+                go(i + 1, k + 1, acc)
+                acc.pop()
+    go(0, 0, [])
+    return res
+
+
+def _rename_closures(bodies_json, ren):
+    """Apply {old raw closure name: new raw closure name} to every name that has one of them as a prefix."""
+    if not ren:
+        return
+    olds = sorted(ren, key=len, reverse=True)
+
+    def fix(nm):
+        for o in olds:
+            if nm == o or nm.startswith(o + "::"):
+                return ren[o] + nm[len(o):]
+        return nm
+    for b in bodies_json:
+        for k in ("name", "root", "parent"):
+            if k in b:
+                b[k] = fix(b[k])
+        for blk in b["blocks"]:
+            for st in blk["stmts"]:
+                if st["s"] == "assign" and st["rv"]["r"] == "agg" and st["rv"].get("ak") == "closure":
+                    st["rv"]["closure"] = fix(st["rv"]["closure"])
+
+
+def apply_closure_reference(bodies_json, ref):
+    """Closures are numbered by rustc in source order, so adding one renumbers the later ones of the
+    same function.  The rule texts use the numbers of the reference tree; when the reference closures
+    of a function embed in exactly one order-preserving way into the current ones (same use
+    signature), the current closures are renumbered to the reference numbers and the additional
+    ones get the numbers after them."""
+    applied = []
+    for depth in range(0, 3):
+        cur = closure_signatures(bodies_json, depth)
+        ren = {}
+        for parent, lst in cur.items():
+            rsig = ref.get(parent)
+            if rsig is None:
+                continue
+            csig = [e[1] for e in lst]
+            if csig == rsig or len(csig) < len(rsig):
+                continue
+            emb = _embeddings(rsig, csig)
+            if len(emb) != 1:
+                continue
+            used = emb[0]
+            nxt = len(rsig)
+            for idx, (cname, _) in enumerate(lst):
+                if idx in used:
+                    no = used.index(idx)
+                else:
+                    no = nxt
+                    nxt += 1
+                new = _CLOSURE_NO.sub("{closure#%d}" % no, cname)
+                if new != cname:
+                    ren[cname] = new
+                    applied.append((cname, new))
+        if ren:
+            # two-step to allow swaps
+            tmp = dict((o, o + "\x00tmp") for o in ren)
+            _rename_closures(bodies_json, tmp)
+            _rename_closures(bodies_json, dict((tmp[o], ren[o]) for o in ren))
+    return applied
+
+
 class Facts:
     def __init__(self, path, meta=None):
         with open(path) as fh:
             self.j = json.load(fh)
+        self.closure_aliases = []
+        _ref_path = os.path.join(os.path.dirname(os.path.dirname(os.path.dirname(os.path.abspath(__file__)))), "reference_names.json")
+        if os.path.exists(_ref_path):
+            with open(_ref_path) as fh:
+                _ref = json.load(fh)
+            self.closure_aliases = apply_closure_reference(self.j["bodies"], _ref.get("closures", {}))
         self.path = path
         self.meta = meta or {}
         self.config = self.j["config"]
